@@ -544,6 +544,42 @@ func gen(o hreg.Opts, w *bufio.Writer) error {
 		st.Add("sig-fork", forkNames[right])
 		line("sig", "%s %d %s %s %s %d %d %s %d %d %d %d %s", s, slot, hx(gvr), hx(gvrSign), hx(root), vIdx, dIdx, hx(dGvr), penv, prop, signer, pub, kind)
 	}
+	// --- the public constructors of eth2/configs, customisation of what they return, and the built-ins again
+	pick := []string{"mainnet", "minimal"}
+	apiLines := 0
+	emitAPI := func() {
+		combos := [][]string{
+			{"mainnet", "mainnet", "mainnet", "mainnet", "mainnet", "mainnet", "mainnet"},
+			{"minimal", "minimal", "minimal", "minimal", "minimal", "minimal", "minimal"},
+		}
+		for i := 0; i < o.Pick(6, 60); i++ {
+			c := make([]string, 7)
+			for j := range c {
+				c[j] = pick[rng.Intn(2)]
+			}
+			combos = append(combos, c)
+		}
+		for i, c := range combos {
+			legacy := []string{"none", "mainnet", "minimal"}[(i+apiLines)%3]
+			mask := uint64(31)
+			if i >= 2 {
+				mask = uint64(1 + rng.Intn(31))
+			}
+			st.Add("specapi-legacy", legacy)
+			line("specapi", "%s %s %d", strings.Join(c, ","), legacy, mask)
+			apiLines++
+		}
+		line("specapi", "mainnet,mainnet,,mainnet,mainnet,mainnet,mainnet none 1") // a component without a name: refused
+	}
+	emitAPI()
+	for _, name := range []string{"Mainnet", "Minimal"} { // the reflection dump of the built-ins once more
+		for _, k := range structKeys(builtin(name)) {
+			line("const", "%s %s", name, k)
+		}
+		line("constkeys", "%s", name)
+		line("fvb", "%s %d", name, uint64(builtin(name).SLOTS_PER_EPOCH)*194048)
+	}
+	emitAPI()
 	// malformed lines
 	line("fv", "1,2,3 5")
 	line("fd", "x y z")
@@ -1091,6 +1127,96 @@ func runSig(f []string) string {
 	return "ok " + hreg.B2S(res) + " " + hex.EncodeToString(msg[:])
 }
 
+// sentinel constants read back in `specapi` lines: (struct group the value lives in, key)
+var sentinels = [][2]string{
+	{"Config", "ALTAIR_FORK_EPOCH"}, {"Config", "GENESIS_FORK_VERSION"}, {"Config", "SECONDS_PER_SLOT"},
+	{"Phase0Preset", "MAX_COMMITTEES_PER_SLOT"}, {"AltairPreset", "SYNC_COMMITTEE_SIZE"},
+	{"BellatrixPreset", "MAX_EXTRA_DATA_BYTES"}, {"CapellaPreset", "MAX_WITHDRAWALS_PER_PAYLOAD"},
+	{"DenebPreset", "MAX_BLOB_COMMITMENTS_PER_BLOCK"}, {"ElectraPreset", "PENDING_CONSOLIDATIONS_LIMIT"},
+}
+
+func sentinelDump(sp *common.Spec) string {
+	var out []string
+	for _, k := range sentinels {
+		v := "absent"
+		walkSpec(sp, func(n string, f reflect.Value) {
+			if n == k[1] {
+				if s, ok := renderField(f); ok {
+					v = s
+				}
+			}
+		})
+		out = append(out, v)
+	}
+	eng := "nil"
+	if sp.ExecutionEngine != nil {
+		eng = "SET"
+	}
+	return strings.Join(out, ",") + ",engine=" + eng
+}
+
+type dummyEngine struct{}
+
+// runSpecAPI: a spec is obtained through the public constructor configs.SpecOptions.Spec, the caller
+// customises ITS spec (fork epochs, versions, preset values, the engine), and then the built-in
+// configurations and a newly constructed spec are read again: they must still be the published ones.
+// names: config,phase0,altair,bellatrix,capella,deneb,electra ; legacy: name or "none".
+func runSpecAPI(names []string, legacy string, mask uint64) string {
+	mk := func() (*common.Spec, error) {
+		o := &configs.SpecOptions{Config: names[0], Phase0Preset: names[1], AltairPreset: names[2], BellatrixPreset: names[3],
+			CapellaPreset: names[4], DenebPreset: names[5], ElectraPreset: names[6]}
+		if legacy != "none" {
+			o.LegacyConfig, o.LegacyConfigChanged = legacy, true
+		}
+		return o.Spec()
+	}
+	s1, err := mk()
+	if err != nil {
+		return "err"
+	}
+	s2, err := mk()
+	if err != nil {
+		return "err"
+	}
+	// the default options (all mainnet)
+	var d configs.SpecOptions
+	d.Default()
+	s3, err := d.Spec()
+	if err != nil {
+		return "err"
+	}
+	distinct := s1 != configs.Mainnet && s1 != configs.Minimal && s2 != configs.Mainnet && s2 != configs.Minimal &&
+		s3 != configs.Mainnet && s3 != configs.Minimal && s1 != s2 && s1 != s3 && s2 != s3
+	got := sentinelDump(s1)
+	// the caller customises its own specs
+	for _, sp := range []*common.Spec{s1, s3} {
+		if mask&1 != 0 {
+			sp.ALTAIR_FORK_EPOCH, sp.BELLATRIX_FORK_EPOCH = 7, 9
+		}
+		if mask&2 != 0 {
+			sp.GENESIS_FORK_VERSION = common.Version{0xde, 0xad, 0xbe, 0xef}
+			sp.ALTAIR_FORK_VERSION = common.Version{0xde, 0xad, 0xbe, 0xf0}
+		}
+		if mask&4 != 0 {
+			sp.MAX_COMMITTEES_PER_SLOT, sp.SYNC_COMMITTEE_SIZE, sp.MAX_WITHDRAWALS_PER_PAYLOAD = 3, 9, 5
+			sp.MAX_BLOB_COMMITMENTS_PER_BLOCK, sp.PENDING_CONSOLIDATIONS_LIMIT = 7, 11
+		}
+		if mask&8 != 0 {
+			sp.SECONDS_PER_SLOT = 1
+			sp.CONFIG_NAME = "customised"
+		}
+		if mask&16 != 0 {
+			sp.ExecutionEngine = dummyEngine{}
+		}
+	}
+	s4, err := mk()
+	if err != nil {
+		return "err"
+	}
+	return fmt.Sprintf("ok copies=%s got=%s mainnet=%s minimal=%s rebuilt=%s", map[bool]string{true: "distinct", false: "SHARED"}[distinct],
+		got, sentinelDump(configs.Mainnet), sentinelDump(configs.Minimal), sentinelDump(s4))
+}
+
 func exec(o hreg.Opts, sc *bufio.Scanner, w *bufio.Writer) error {
 	gc := goConstTable()
 	for sc.Scan() {
@@ -1181,6 +1307,13 @@ func exec(o hreg.Opts, sc *bufio.Scanner, w *bufio.Writer) error {
 					ts = append(ts, t)
 				}
 				return runDom(s, gvr, ts)
+			case f[0] == "specapi" && len(f) == 4:
+				names := strings.Split(f[1], ",")
+				mask, err := strconv.ParseUint(f[3], 10, 64)
+				if len(names) != 7 || err != nil {
+					return "bad-op"
+				}
+				return runSpecAPI(names, f[2], mask)
 			case f[0] == "env" && len(f) == 3:
 				seed, err := strconv.ParseInt(f[2], 10, 64)
 				if err != nil {
